@@ -22,7 +22,7 @@ type c07Req struct {
 	CtxMs   int    `json:"ctx_ms"` // when it ends (relative to the call), for cancel/timeout
 	Read    string `json:"read"`   // now | later | abandon
 	LaterMs int    `json:"later_ms"`
-	Answer  string `json:"answer"` // once | delayed | twice | burst | never | foreign | error
+	Answer  string `json:"answer"` // once | delayed | twice | burst | never | foreign | error | at-ctx-end (arrives at the instant the context ends)
 	DelayMs int    `json:"delay_ms"`
 }
 
@@ -90,7 +90,7 @@ func runC07(e *Engine, g G, o RunOpt) RunInfo {
 			r.CtxMs = []int{1, 7, 40, 300, 2000}[g.N("ctxms", 5)]
 			r.Read = []string{"now", "later", "abandon"}[g.Weighted("read", 6, 2, 2)]
 			r.LaterMs = []int{5, 60, 900}[g.N("laterms", 3)]
-			r.Answer = []string{"once", "delayed", "twice", "burst", "never", "foreign", "error"}[g.Weighted("answer", 6, 3, 3, 3, 2, 2, 2)]
+			r.Answer = []string{"once", "delayed", "twice", "burst", "never", "foreign", "error", "at-ctx-end"}[g.Weighted("answer", 6, 3, 3, 3, 2, 2, 2, 3)]
 			r.DelayMs = []int{2, 13, 120, 1100}[g.N("delayms", 4)]
 			if o.Avoiding("abandoned-channel-blocks-route") && r.Read == "abandon" {
 				r.Read = "later"
@@ -112,6 +112,7 @@ func runC07(e *Engine, g G, o RunOpt) RunInfo {
 	callErr := map[string]error{}
 	written := map[string]time.Duration{}
 	ctxEnd := map[string]time.Duration{} // when the context ended (sim time), -1 open
+	plannedEnd := map[string]time.Duration{}
 	type cancelAt struct {
 		at time.Duration
 		fn context.CancelFunc
@@ -205,6 +206,16 @@ func runC07(e *Engine, g G, o RunOpt) RunInfo {
 					emit(0, "foreign-"+id, "result")
 				case "error":
 					emit(0, id, "error")
+				case "at-ctx-end":
+					// the answer reaches the client at the very instant the context of its request ends
+					d := time.Duration(0)
+					if pe, ok := plannedEnd[id]; ok {
+						if d = pe - e.Now() - time.Duration(sc.LatencyNs); d < 0 {
+							d = 0
+						}
+						e.Probe("c07.answer_at_context_end")
+					}
+					emit(d, id, "result")
 				}
 				return true
 			}
@@ -281,17 +292,20 @@ func runC07(e *Engine, g G, o RunOpt) RunInfo {
 						at := e.Now() + 24*time.Hour
 						if r.Ctx == "cancel" {
 							at = e.Now() + time.Duration(r.CtxMs)*time.Millisecond + 777*time.Microsecond
+							plannedEnd[r.ID] = at
 						}
 						cancels = append(cancels, cancelAt{at: at, fn: cancel, id: r.ID})
 					case "timeout":
 						d := time.Duration(r.CtxMs)*time.Millisecond + 777*time.Microsecond
 						ctx, cancel = context.WithTimeout(ctx, d)
 						ctxEnd[r.ID] = e.Now() + d
+						plannedEnd[r.ID] = e.Now() + d
 						_ = cancel
 					case "deadline-cancelled-early":
 						// a context with a far deadline that the caller cancels itself, much earlier
 						ctx, cancel = context.WithTimeout(ctx, time.Hour+13*time.Microsecond)
-						cancels = append(cancels, cancelAt{at: e.Now() + time.Duration(r.CtxMs)*time.Millisecond + 777*time.Microsecond, fn: cancel, id: r.ID})
+						plannedEnd[r.ID] = e.Now() + time.Duration(r.CtxMs)*time.Millisecond + 777*time.Microsecond
+						cancels = append(cancels, cancelAt{at: plannedEnd[r.ID], fn: cancel, id: r.ID})
 					}
 					iq, _ := stanza.NewIQ(stanza.Attrs{Type: stanza.IQTypeGet, Id: r.ID, To: SimDomain})
 					iq.Payload = &stanza.Version{}
